@@ -13,6 +13,13 @@ Part D  CacheLock: two overlapping holders (nested, two threads, two processes) 
         up with CacheException after its timeout; a refresh inside the interval raises CacheException (skipped);
         a torn/garbage last_update.txt must not crash.
 
+Part E  the DEFAULT cache directory: child processes with a private HOME (rt/c19_home.py) bring ~/.hedtools/hed_cache/ into the
+        states an interrupted population / refresh leaves (a forked process is killed with os._exit before / inside / after the
+        k-th file copy; refresh against a stand-in repository; timestamp absent / recent / old / garbage; lock file left
+        behind or held by a live process), name the directory not at all / by set_cache_directory(<equivalent spelling>) /
+        by a folder argument in an equivalent spelling, and then - network off - call get_hed_versions() and
+        load_schema_version for EVERY bundled version (plain, one-element list, prefixed, lists, merged libraries).
+
 The network does not exist: make_url_request is replaced by a function that raises URLError at once and counts calls.
 """
 import json
@@ -700,14 +707,152 @@ def part_lock(w):
 
 
 # ------------------------------------------------------------------------------------------------------------
+# Part E: the default cache directory under a private HOME (child processes, see rt/c19_home.py)
+# ------------------------------------------------------------------------------------------------------------
+
+
+def home_jobs(quick):
+    """the cache states x ways of naming the directory that Part E visits"""
+    from rt.c19_home import SPELLINGS
+    n = len([f for f in installed_files() if version_of(f)])
+    entries = ["cache_local_versions", "get_hed_versions", "load_schema_version"]
+    stamps = ["absent", "recent", "old", "garbage"]
+    orders = ["os order", "shuffle a", "8.3.0 last", "shuffle b", "8.3.0 first", "shuffle c"]
+    other = [sp for sp in SPELLINGS if sp != "as computed"]
+    jobs = []
+
+    def add(steps, **kw):
+        i = len(jobs)
+        job = {"id": i, "steps": steps, "timestamp": stamps[i % len(stamps)]}
+        job.update(kw)
+        jobs.append(job)
+
+    def pop(nth, mode, i):
+        return {"kind": "populate", "entry": entries[i % 3], "nth_copy": nth, "mode": mode, "order": orders[i % len(orders)]}
+
+    def naming(i):
+        return {"via": "default"} if i % 2 == 0 else {"via": "set", "spelling": other[(i // 2) % len(other)]}
+
+    # population killed between two copies: exactly k files were copied (k = n: it finished)
+    for k in range(n + 1):
+        add([pop(k, "before", k)], **naming(k))
+    # ... inside a copy / after a copy, before the copy is published
+    points = [(0, "truncated"), (n // 2, "truncated"), (n - 2, "after")] if quick else \
+        [(k, m) for k in range(n) for m in ("truncated", "after")]
+    for i, (k, m) in enumerate(points):
+        add([pop(k, m, i + 1)], **naming(i + 1))
+    if not quick:
+        for k in range(n + 1):
+            add([pop(k, "before", k + 2)], **naming(k + 1))
+    # refresh (download path) killed; on an empty directory and after a partial population
+    rpoints = [(None, 0, "truncated"), (3, 1, "truncated"), (5, 2, "after")] if quick else \
+        [(base, j, m) for base in (None, 3) for j in range(0, n - 3) for m in ("before", "truncated", "after")]
+    for i, (base, j, m) in enumerate(rpoints):
+        steps = ([pop(base, "before", i)] if base is not None else []) + [{"kind": "refresh", "nth_copy": j, "mode": m}]
+        add(steps, **naming(i))
+    # a live process holds the lock while the loads run
+    add([pop(0, "before", 0)], lock_held=True, few_loads=2, via="default")
+    add([pop(4, "before", 1)], lock_held=True, via="default")
+    if not quick:
+        add([pop(0, "before", 2)], lock_held=True, few_loads=2, via="set", spelling="no trailing slash")
+        add([pop(7, "truncated", 3)], lock_held=True, via="set", spelling="dot-dot")
+    # the directory given as an argument, in equivalent spellings
+    for k in ((3,) if quick else (1, 3, 7, n - 1)):
+        for sp in (("as computed", "no trailing slash", "relative") if quick else SPELLINGS):
+            add([pop(k, "before", k)], via="arg", spelling=sp)
+    if not quick:
+        add([pop(0, "before", 1)], via="arg", spelling="no trailing slash")
+    for j in jobs:
+        if j.get("lock_held"):
+            j["timestamp"] = "absent"
+        if quick:
+            j["quick"] = True
+    return jobs
+
+
+def home_children(jobs, nchildren, seed):
+    """start the child processes (private HOME each); -> list of (Popen, home, jobs)"""
+    import subprocess
+    import hed
+    base = tempfile.mkdtemp(prefix="c19homes_")
+    hed_root = os.path.dirname(os.path.dirname(os.path.abspath(hed.__file__)))
+    verif = os.path.dirname(os.path.dirname(os.path.abspath(__file__)))
+    path = os.pathsep.join([hed_root, verif] + [p for p in os.environ.get("PYTHONPATH", "").split(os.pathsep) if p])
+    kids = []
+    for c in range(nchildren):
+        mine = jobs[c::nchildren]
+        if not mine:
+            continue
+        home = os.path.join(base, "c19home_%d" % c)
+        os.makedirs(os.path.join(home, "tmp"))
+        env = dict(os.environ, HOME=home, TMPDIR=os.path.join(home, "tmp"), PYTHONPATH=path, PYTHONDONTWRITEBYTECODE="1")
+        err = open(os.path.join(home, "stderr.txt"), "wb")
+        p = subprocess.Popen([sys.executable, "-m", "rt.c19_home"], stdin=subprocess.PIPE, stdout=subprocess.PIPE, stderr=err,
+                             cwd=verif, env=env)
+        err.close()
+        p.stdin.write(json.dumps({"jobs": mine, "seed": seed}).encode())
+        p.stdin.close()
+        kids.append((p, home, mine))
+    return base, kids
+
+
+def home_collect(w, base, kids, timeout):
+    import hed
+    n = 0
+    t_end = time.time() + timeout
+    try:
+        for p, home, mine in kids:
+            try:
+                p.stdin = None          # (already written and closed)
+                out, _ = p.communicate(timeout=max(1, t_end - time.time()))
+            except Exception:
+                p.kill()
+                out = b""
+            try:
+                res = json.loads(out.decode().strip().splitlines()[-1])
+            except Exception:
+                res = {"error": "no result from the child process"}
+            if "results" not in res:
+                try:
+                    with open(os.path.join(home, "stderr.txt"), "rb") as fp:
+                        tail = fp.read()[-500:].decode("latin-1")
+                except OSError:
+                    tail = ""
+                w.fail("C19.workload.injection", {"kind": "home", "jobs": [j["id"] for j in mine]}, {"child": res, "stderr": tail},
+                       "the child process reports its results")
+                continue
+            same = os.path.realpath(res["info"]["hed"]) == os.path.realpath(os.path.dirname(hed.__file__))
+            w.check(same, "C19.workload.injection", {"kind": "home", "what": "package seen by the child"}, res["info"],
+                    os.path.dirname(hed.__file__))
+            for r in res["results"]:
+                n += 1
+                if os.environ.get("C19_TIMES"):
+                    print("job", r["input"]["job"]["id"], r.get("s"), r["input"].get("loads"), file=sys.stderr)
+                w.case(key=json.dumps(r["input"]["job"], sort_keys=True), nontrivial=r["nontrivial"], sample=r["input"]["job"])
+                for clause, inp, obs, exp in r["fails"]:
+                    w.fail(clause, inp, obs, exp)
+    finally:
+        for p, _, _ in kids:
+            if p.poll() is None:
+                p.kill()
+        shutil.rmtree(base, ignore_errors=True)
+    return n
 
 
 def run(w: Workload):
-    w.rule = ("crash points: every call of shutil.copy*/os.replace/os.rename made by cache_local_versions on an empty temp cache "
+    w.rule = ("default cache under a private HOME (child processes): a forked populating / refreshing process is killed (os._exit) "
+              "before the k-th copy for every k, inside / after chosen copies (all of them in the thorough tier), x entry point x "
+              "listing order x timestamp file x {directory not named, set_cache_directory(equivalent spelling), folder argument "
+              "in an equivalent spelling}; then get_hed_versions() and load_schema_version of every bundled version and "
+              "library by number (plain / list / prefixed / lists / merged) must equal the schema built from the bundled "
+              "files, and a complete population must leave byte-identical files; "
+              "crash points: every call of shutil.copy*/os.replace/os.rename made by cache_local_versions on an empty temp cache "
               "x {interrupt before, after, after half of the destination was written} x listing orders of the installed folder "
               "{as listed by the OS, HED8.3.0.xml last, first}; every crash point is a distinct cache state; then load_schema_version of 8.3.0 "
               "and of the version whose file was hit; + 11 hand-made left-behind states; + lock probes (nested / threads / "
               "processes / refresh interval x 4 / 9 garbage timestamps x 2 entry points)")
+    hjobs = home_jobs(w.quick)
+    hbase, hkids = home_children(hjobs, 8 if w.quick else 12, w.seed)      # run alongside the other parts
     n_pop = part_population(w)
     n_states = part_states(w)
     n_lock = part_lock(w)
@@ -736,6 +881,15 @@ def run(w: Workload):
         w.case(key=key, nontrivial=nontrivial, sample=json.loads(key))
         for clause, inp, obs, exp in fails:
             w.fail(clause, inp, obs, exp)
+    t_rest = time.time() - w.t0
+    n_home = home_collect(w, hbase, hkids, 80 if w.quick else 800)
+    if os.environ.get("C19_TIMES"):
+        print("other parts done at %.1f s, private-HOME part collected at %.1f s" % (t_rest, time.time() - w.t0), file=sys.stderr)
+    w.part("default cache directory under a private HOME: killed population / refresh, then every bundled version by number",
+           cases=n_home, bound="population killed before each copy (0..n files copied), inside / after chosen copies; refresh killed at "
+           "chosen copies; timestamp absent/recent/old/garbage; lock held by a live process; directory named not at all / "
+           "set_cache_directory(spelling) / folder argument(spelling); %d jobs, each loading all bundled versions in rotating "
+           "forms + lists + merged libraries" % len(hjobs), exhaustive=False)
     w.part("un-interrupted population", cases=n_pop, bound="4 entry points on an empty / missing temp cache directory", exhaustive=True)
     w.part("loader concurrent with a populating lock holder paused at one file operation (threads in one process)",
            cases=len(jobs) - n_crash, bound="every file operation x {before, after, mid-copy}", exhaustive=True)
@@ -748,7 +902,9 @@ def run(w: Workload):
         "true multi-process schedules: only ONE loader against ONE populating lock holder paused at each file operation is explored "
         "(threads of one process; flock excludes between descriptors); two simultaneous populators are only probed for exclusion",
         "the download path (_cache_specific_url / _safe_move_tmp_to_folder / sha comparison) - no network; get_library_data's cache",
-        "prerelease sub-directory; library schema loads after a crash (only standard versions are re-loaded)",
+        "prerelease sub-directory; in the temp-directory crash part only standard versions are re-loaded (all versions and "
+        "libraries are loaded in the private-HOME part)",
+        "refresh that brings content different from the bundled files (a version changed upstream)",
         "lock timeouts other than the built-in 1 s; NFS / non-POSIX lock semantics",
     ]
     w.assumptions += [
@@ -775,6 +931,15 @@ def replay(w: Workload, case: dict):
         for clause, i2, obs, exp in fails:
             if clause == case["clause"]:
                 w.fail(clause, i2, obs, exp)
+        return
+    if kind == "home":
+        base, kids = home_children([inp["job"]], 1, case.get("seed", 0))
+        sub = Workload("C19", "quick", 0)
+        home_collect(sub, base, kids, 80)
+        w.evaluations = sub.evaluations
+        for f in sub.failures:
+            if f["clause"] == case["clause"] and (f["input"].get("form") == inp.get("form") or "form" not in inp):
+                w.fail(f["clause"], f["input"], f["observed"], f["expected"])
         return
     sub = Workload("C19", "quick", 0)
     {"populate": part_population, "state": part_states, "lock": part_lock}[kind](sub)
